@@ -62,6 +62,8 @@ def _worker(job):
             out["combos"].append(c)
             continue
         c["table"] = impl.dump_table(p.table, gi)
+        if not ps and not pse and out["plain"]:
+            c["ann"] = impl.dump_annotation(p.table, gi, slr=(tabs == SLR))
         c["deterministic"] = all(len(al) == 1 for s in p.table.states for al in s.actions.values())
         glr = None
         if c["deterministic"] and not ps and not pse and out["plain"]:
@@ -121,12 +123,18 @@ def gen_jobs(ctx):
         jobs.append((name, text, sorted(set(inputs))))
     nrand = 120 if quick else 1500
     for i in range(nrand):
-        r = gramgen.random_grammar(rng, max_nt=3, max_alts=3, max_rhs=3,
+        big = i % 3 == 0
+        r = gramgen.random_grammar(rng, max_nt=5 if big else 3, max_alts=3, max_rhs=3,
+                                   terms=("'a'", "'b'", "'c'") if big else ("'a'", "'b'"),
                                    p_empty=rng.choice([0.0, 0.15, 0.3]))
         if r is None:
             continue
         prods, text = r
-        base = list(gramgen.all_strings(["a", "b"], 4 if quick else 5))
+        if i % 5 == 0:
+            prods = [prods[0]] + list(reversed(prods[1:]))
+            text = gramgen.gr_text(prods)
+        base = list(gramgen.all_strings(["a", "b", "c"] if big else ["a", "b"],
+                                        (3 if quick else 4) if big else (4 if quick else 5)))
         for _ in range(8):
             s = gramgen.random_sentence(rng, prods, max_depth=5, max_len=9)
             if s is not None and s not in base:
@@ -173,6 +181,10 @@ def run(ctx):
                 st["deterministic_combos"] += 1
             mcases.append((3, [r["grammar"], c["table"], start]))
             meta.append(("struct", r, c, None))
+            if "ann" in c:
+                ann, ftab, ntab = c["ann"]
+                mcases.append((8, [r["grammar"], c["table"], ann, ftab, ntab, r["stop"]]))
+                meta.append(("complete", r, c, None))
             pconf = [r["grammar"], c["table"], r["terms"], r["stop"], 1, 1, wsl, []]
             for w, res in c["results"].items():
                 pin = [[ord(ch) for ch in w], r["rx"][w]]
@@ -198,6 +210,13 @@ def run(ctx):
             if o != 1:
                 ctx.violation("table_struct fails on the impl's table (automaton structure broken)",
                               rep, no_input=True, key="table_struct")
+            continue
+        if kind == "complete":
+            st["tables_validated_complete"] = st.get("tables_validated_complete", 0) + 1
+            if o != 1:
+                ctx.violation("table_complete fails on the impl's strategy-free table: some derivation has no "
+                              "accepting run (a valid action is missing)", rep, no_input=True,
+                              key="table_complete")
             continue
         res = c["results"][w]
         if kind == "treeok":
